@@ -121,7 +121,7 @@ NUM_CARRIERS = ["sub_both", "sub_both2", "assign", "assign_elem", "sub_rhs", "su
                 "dev_hcircle", "dev_poke", "read_sub", "input_sub", "loop_body", "jump_target", "two_statements", "width",
                 "assign_raw", "assign_elem_raw", "print_raw", "print_item_raw", "print_at_raw", "print_last_raw", "print_many",
                 "varptr_sub", "varptr_sub2", "if_nested_false", "if_nested_true", "if_nested_deep",
-                "for_limit_step", "for_all_three", "poke_fast", "poke_slow", "poke_fast_hex", "assign_self", "assign_self_elem", "if_rem_then", "if_rem_then2", "self_bare"]
+                "for_limit_step", "for_all_three", "poke_fast", "poke_slow", "poke_fast_hex", "assign_self", "assign_self_elem", "if_rem_then", "if_rem_then2", "self_bare", "if_and_false", "if_and_true", "if_or_true", "if_and_paren"]
 STR_CARRIERS = ["assign_s", "assign_elem_s", "print_item_s", "print_at_item_s", "if_s_noelse", "if_s_else", "dev_hprint",
                 "dev_hdraw", "loop_body_s", "len_assign", "assign_self_s", "if_rem_then_s"]
 
@@ -191,6 +191,14 @@ def carrier(name, e):
         y3 = ("arr", "Y", [n(3)])
         return one([("let", B, ("un", "-", ("num", 2.5, ["2.5"])), False), ("let", B, F("INT", B), False),
                     ("let", y3, ("un", "-", ("num", 0.25, [".25"])), False), ("let", y3, F("INT", y3), False), ("let", R, ("bin", "+", e, B), False)])
+    if name in ("if_and_false", "if_and_true", "if_or_true", "if_and_paren"):
+        # AND / OR evaluate both operands in Color BASIC - there is no short circuit: the call in the second operand runs
+        # whatever the first one says
+        left = {"if_and_false": ("bin", "<", A, n(0)), "if_and_true": ("bin", ">", A, n(0)), "if_or_true": ("bin", ">", A, n(0)),
+                "if_and_paren": ("par", ("bin", "<", A, n(0)))}[name]
+        op = "OR" if name == "if_or_true" else "AND"
+        return [(30, [("let", R, n(2), False), ("if", ("bin", op, left, ("bin", ">", e, n(1))), ("stmts", [("let", R, n(1), False)]), [], None)]),
+                (40, [("let", ("var", "Q"), F("BUTTON", n(2)), False)])]
     if name == "if_rem_then":
         # the THEN part holds nothing but a remark: the condition is evaluated all the same (INKEY$ is read, BUTTON polled)
         return [(30, [("if", ("bin", ">", e, n(1)), ("stmts", [("rem", " DISCARD", "'")]), [], None)]), (40, [("let", R, n(1), False)])]
